@@ -9,7 +9,7 @@ import (
 
 var opKindsCursorTree = []string{
 	"add", "add", "add", "add", "add", "replace", "remove", "removeI", "removeI",
-	"asc", "asc", "desc", "desc", "zig", "zig", "drain", "rm2", "bulkremove", "deep", "deep",
+	"asc", "asc", "desc", "desc", "zig", "zig", "drain", "rm2", "bulkremove", "prune", "deep", "deep",
 	"cursor", "cursorI", "cursorI", "clone", "switch", "switch",
 }
 
